@@ -256,3 +256,184 @@ impl Group for Negotiation {
         o.chars().take(14).collect()
     }
 }
+
+/// C06, the memo under concurrent first requests: k requests for one cached entry whose compressed variant is cold,
+/// some of them aborted half-way; the hook events of every memo cell are replayed in the `Memo` model.
+pub struct Memo {
+    rt: tokio::runtime::Runtime,
+}
+impl Memo {
+    pub fn new() -> Self {
+        Memo { rt: tokio::runtime::Builder::new_multi_thread().worker_threads(8).enable_all().build().unwrap() }
+    }
+}
+impl Group for Memo {
+    fn name(&self) -> &'static str {
+        "c06.memo"
+    }
+    fn rule(&self) -> &'static str {
+        "one cached entry (bodies 60 B - 300 KiB), optionally warmed by a request with another Accept-Encoding, then 2-32 concurrent requests on an 8-thread runtime for a variant that is still cold, 0-k/2 of them aborted after 0-2000 us; the hook events of each memo cell (a caller entered, the initialiser started — kvarn built with verif-hooks) are replayed in the Memo model: an initialiser may only start for a caller that entered, on an empty cell, with the permit free or given back by one of the aborted callers; oracle: every completed request has status 200, the same content-encoding and a body that decodes to the identity body, a compressed answer from a cold cell has at least one initialiser run, and initialiser runs <= 1 + aborted callers; non-trivial = at least two callers entered one cell"
+    }
+    fn parallel(&self) -> bool {
+        false
+    }
+    fn generate(&self, ctx: &Ctx, rng: &mut Rng) -> Vec<String> {
+        let n = if ctx.mode == Mode::Quick { 160 } else { 3000 };
+        (0..n)
+            .map(|_| {
+                let len = *rng.pick(&[60usize, 500, 4096, 50_000, 300_000, 4096, 20_000]);
+                let k = rng.range(2, 33);
+                let aborts = if rng.chance(1, 2) { 0 } else { rng.range(1, k / 2 + 2) };
+                let us = *rng.pick(&[0usize, 20, 100, 300, 1000, 2000]);
+                let pref = *rng.pick(&["zstd", "br", "gzip"]);
+                let warm = if rng.chance(1, 2) { "none".to_owned() } else { hex(rng.pick(&["identity", "gzip", "br", "zstd"]).as_bytes()) };
+                let ae = hex(rng.pick(&["gzip", "br", "zstd", "gzip, br", "br, zstd", "gzip, zstd;q=0.5", "br;q=0.1, gzip"]).as_bytes());
+                format!("c06.memo {len} {k} {aborts} {us} {pref} {warm} {ae}")
+            })
+            .collect()
+    }
+    fn driver_line(&self, _line: &str) -> String {
+        "c06.memo 0 -".into()
+    }
+    fn driver_line_with(&self, _line: &str, impl_out: &str) -> String {
+        // ok enc=<e> cancels=<n> traces=<t|t>
+        let get = |k: &str| impl_out.split(' ').find_map(|t| t.strip_prefix(k)).unwrap_or("").to_owned();
+        if impl_out.starts_with("ok ") {
+            format!("c06.memo {} {}", get("cancels="), get("traces="))
+        } else {
+            "c06.memo 0 -".into()
+        }
+    }
+    fn canon(&self, out: &str) -> String {
+        if out.starts_with("ok ") { "ok".into() } else { out.to_owned() }
+    }
+    fn run_impl(&self, _ctx: &Ctx, line: &str) -> String {
+        let p: Vec<&str> = line.split(' ').collect();
+        let len: usize = p[1].parse().unwrap();
+        let k: usize = p[2].parse().unwrap();
+        let aborts: usize = p[3].parse().unwrap();
+        let us: u64 = p[4].parse().unwrap();
+        let body: Vec<u8> = gen_bytes(len / 2, 23).into_iter().chain(std::iter::repeat(b'a').take(len - len / 2)).collect();
+        let mut ext = Extensions::empty();
+        let b2 = Bytes::from(body.clone());
+        ext.add_prepare_single(
+            "/c",
+            prepare!(_r, _h, _p, _a, move |b2: Bytes| {
+                let mut r = Response::new(b2.clone());
+                r.headers_mut().insert("content-type", HeaderValue::from_static("text/html"));
+                FatResponse::cache(r)
+            }),
+        );
+        let mut host = Host::unsecure("localhost", "/nonexistent", ext, host::Options::default());
+        host.compression_options_cached.preferred = match p[5] { "zstd" => comprash::PreferredCompression::Zstd, "br" => comprash::PreferredCompression::Brotli, _ => comprash::PreferredCompression::Gzip };
+        host.compression_options_oneshot.preferred = host.compression_options_cached.preferred.clone();
+        host.set_brotli_level(3).set_gzip_level(2);
+        let host = std::sync::Arc::new(host);
+        let addr: SocketAddr = "10.0.0.4:78".parse().unwrap();
+        let mk_req = |ae: &[u8]| {
+            Request::builder().uri("/c").header("accept-encoding", HeaderValue::from_bytes(ae).unwrap())
+                .body(kvarn::application::Body::Bytes(Bytes::new().into())).unwrap()
+        };
+        let log: std::sync::Arc<std::sync::Mutex<Vec<(&'static str, u64)>>> = Default::default();
+        {
+            let log = log.clone();
+            kvarn::verif::set_callback(Some(std::sync::Arc::new(move |name: &'static str, ctx: u64| {
+                if name.starts_with("memo:") {
+                    log.lock().unwrap().push((name, ctx));
+                }
+            })));
+        }
+        // the request that puts the entry into the response cache (its own variant is compressed before it is stored)
+        let first_ae: Vec<u8> = if p[6] == "none" { b"identity".to_vec() } else { unhex(p[6]).unwrap() };
+        {
+            let mut req = mk_req(&first_ae);
+            let _ = self.rt.block_on(kvarn::handle_cache(&mut req, addr, &host));
+        }
+        let ae = unhex(p[7]).unwrap();
+        let hs: Vec<_> = (0..k)
+            .map(|_| {
+                let host = host.clone();
+                let mut req = mk_req(&ae);
+                self.rt.spawn(async move { kvarn::handle_cache(&mut req, addr, &host).await })
+            })
+            .collect();
+        if aborts > 0 {
+            if us > 0 {
+                std::thread::sleep(std::time::Duration::from_micros(us));
+            }
+            for h in hs.iter().take(aborts) {
+                h.abort();
+            }
+        }
+        let mut cancelled = 0usize;
+        let mut encs: Vec<String> = Vec::new();
+        let mut problems: Vec<String> = Vec::new();
+        for h in hs {
+            match self.rt.block_on(h) {
+                Ok(reply) => {
+                    let status = reply.response.status().as_u16();
+                    let enc = reply.response.headers().get("content-encoding").map(|v| String::from_utf8_lossy(v.as_bytes()).into_owned()).unwrap_or_else(|| "identity".into());
+                    if status != 200 {
+                        problems.push(format!("status {status}"));
+                    }
+                    match decode(&enc, reply.response.body()) {
+                        Ok(d) if d == body => {}
+                        Ok(d) => problems.push(format!("{enc} WRONG-BYTES decoded {} of {}", d.len(), body.len())),
+                        Err(e) => problems.push(format!("{enc} UNDECODABLE {e}")),
+                    }
+                    encs.push(enc);
+                }
+                Err(e) if e.is_cancelled() => cancelled += 1,
+                Err(_) => problems.push("task-panicked".into()),
+            }
+        }
+        kvarn::verif::set_callback(None);
+        encs.sort();
+        encs.dedup();
+        if encs.len() > 1 {
+            problems.push(format!("different codings for the same request {encs:?}"));
+        }
+        // one trace per memo cell, in order of first appearance
+        let evs = log.lock().unwrap().clone();
+        let mut cells: Vec<u64> = Vec::new();
+        for (_, c) in &evs {
+            if !cells.contains(c) {
+                cells.push(*c);
+            }
+        }
+        let mut traces: Vec<String> = Vec::new();
+        for c in &cells {
+            let t: String = evs.iter().filter(|(_, x)| x == c).map(|(n, _)| if *n == "memo:enter" { 'e' } else { 'c' }).collect();
+            let computes = t.chars().filter(|c| *c == 'c').count();
+            if computes > 1 + cancelled {
+                problems.push(format!("{computes} initialiser runs on one cell with {cancelled} aborted callers"));
+            }
+            traces.push(t);
+        }
+        if let Some(enc) = encs.first() {
+            if enc != "identity" && !traces.iter().any(|t| t.contains('c')) {
+                problems.push(format!("a {enc} answer without any initialiser run"));
+            }
+        }
+        if !problems.is_empty() {
+            problems.sort();
+            problems.dedup();
+            return format!("FAIL {problems:?} traces={}", traces.join("|"));
+        }
+        format!("ok enc={} cancels={cancelled} traces={}", encs.first().cloned().unwrap_or_else(|| "-".into()), if traces.is_empty() { "-".to_owned() } else { traces.join("|") })
+    }
+    fn oracle(&self, _ctx: &Ctx, line: &str, out: &str) -> Option<(String, String)> {
+        if out.starts_with("FAIL") || out == "panic" {
+            return Some((format!("memo:{line}"), format!("concurrent first requests: {out}")));
+        }
+        None
+    }
+    fn nontrivial(&self, _line: &str, o: &str) -> bool {
+        o.split(' ').find_map(|t| t.strip_prefix("traces=")).map_or(false, |t| t.split('|').any(|x| x.chars().filter(|c| *c == 'e').count() >= 2))
+    }
+    fn classify(&self, _l: &str, o: &str) -> String {
+        let t = o.split(' ').find_map(|t| t.strip_prefix("traces=")).unwrap_or("");
+        let c = t.chars().filter(|c| *c == 'c').count();
+        format!("{} computes={c}", o.split(' ').next().unwrap_or(""))
+    }
+}
